@@ -419,7 +419,9 @@ class LMeasure:
 
         parent = bif.parent()
         assert parent is not None, "Bifurcation tilt is not defined for root"
-        v = parent.xyz() - bif.xyz()
+        idx = parent.branch().origin_id()[0]
+        n = parent.branch().attach.node(idx)  # previous bifurcation or root
+        v = n.xyz() - bif.xyz()
         v1, v2 = self._bif_vector_remote(bif)
 
         angle1 = np.degrees(angle(v, v1))
